@@ -123,4 +123,22 @@ def exSrc : PSrc := { names := ["p".toList], text := fun n => if n == "p".toList
 example : exSrc.Truthful := by
   intro n; unfold exSrc; by_cases h : n = "p".toList <;> simp [h]
 
+/-- **The `name.liquid` fallback of `render` is a function of the two lookups alone** — the same
+under every store policy (C19_equiv makes the lookups agree): the partial stored under `name` when it
+can be had, otherwise — missing or unparsable alike — whatever the lookup of `name.liquid` gives. -/
+theorem C19_render_fallback (env : Env) (name : Str) :
+    (∀ t, lookupPartial env name = .ok t → lookupPartialR env name = .ok t) ∧
+    ((∀ t, lookupPartial env name ≠ .ok t) →
+        lookupPartialR env name = lookupPartial env (name ++ ".liquid".toList)) := by
+  constructor
+  · intro t h; simp [lookupPartialR, h]
+  · intro h
+    unfold lookupPartialR
+    cases hl : lookupPartial env name with
+    | ok t => exact absurd hl (h t)
+    | err => rfl
+    | io => rfl
+    | panic s => rfl
+    | fuel => rfl
+
 end Liquid.C19
